@@ -7,10 +7,11 @@ def run(ck):
         return
     import contracts_async  # noqa
     ck.plans.append(relay.relay_replay_plan)
-    ck.assumptions += ['AsyncReadExt::read returns 0 only at end of stream; write_all/flush/shutdown succeed (no I/O errors injected)',
+    ck.assumptions += ['AsyncReadExt::read returns 0 only at end of stream; write_all/flush/shutdown succeed, except in the abort run where every read / write / flush may fail with any ErrorKind',
                        'every await completes; an arm of tokio::select! whose future is unknown may also be not ready']
     ck.out_of_scope += ['the splice(2) path: "identically in both I/O modes" is NOT decided (kernel behaviour, fd ownership)', 'FIN/RST as seen on real sockets; promptness in wall-clock terms',
                         'abort = a copy_half future finishing with Err: copy_bidi returns at once (both halves dropped); what the peer observes is the kernel\'s business']
     relay.check_copy_half(ck, max_turns=2 if ck.tier == 'quick' else 3)
     relay.check_copy_bidi_completion(ck)
+    relay.check_copy_half_abort(ck)
     ck.post_filter = lambda o: o.label.startswith('C04/') or o.status in ('undecided', 'vacuous') or o.status == 'inconclusive'
